@@ -474,6 +474,7 @@ let exec (op : string) : unit =
         let items = List.init d (fun i -> Printf.sprintf "%d:%d" (i + 1) (cum (i + 1))) in
         let total = List.fold_left (+) 0 (List.init d (fun i -> cum (i + 1))) in
         Printf.sprintf "clicount %d %s total:%d" d (String.concat " " items) total
+    | ("pvp" | "watch") :: _ when (match !next_obs with Some o -> o = "pvp unparsed" || o = "watch unparsed" | None -> false) -> "SKIP"
     | [ "pvp"; script ] ->
         (* the player-vs-player loop: board printed, game-over test, one input read, classified by the
            translated patterns (coordinates first), executed; the turn is toggled after an accepted move *)
